@@ -7,7 +7,7 @@
 //! partition) and is outside the claim.
 use redirectionio::filter::{VerifTextFilterAction as TA, VerifTextFilterBodyAction as Stage};
 
-const OUT: usize = 4;
+const OUT: usize = 5;
 
 struct Out {
     b: [u8; OUT],
@@ -148,4 +148,47 @@ fn c03_stage_empty_body() {
         k += 1;
     }
     kani::cover!(a == 2);
+}
+
+/// thorough: 3-byte body, every partition into three consecutive chunks (10 partitions)
+fn body3<const A: u8>() {
+    let body: [u8; 3] = kani::any();
+    let c: u8 = kani::any();
+    kani::assume(c < 128);
+    let (want, n): ([u8; 4], usize) = match A {
+        0 => ([body[0], body[1], body[2], c], 4),
+        1 => ([c, body[0], body[1], body[2]], 4),
+        _ => ([c, 0, 0, 0], 1),
+    };
+    let whole = run::<3>(A, c, &body, None, 0);
+    check_same(&whole, &want, n);
+    let mut s1 = 0;
+    while s1 <= 3 {
+        let mut s2 = s1;
+        while s2 <= 3 {
+            let parts = run::<3>(A, c, &body, Some((s1, s2)), 0);
+            check_same(&parts, &want, n);
+            s2 += 1;
+        }
+        s1 += 1;
+    }
+    kani::cover!(whole.n == n);
+}
+
+#[kani::proof]
+#[kani::unwind(7)]
+fn c03_stage_prepend_body3() {
+    body3::<1>();
+}
+
+#[kani::proof]
+#[kani::unwind(7)]
+fn c03_stage_append_body3() {
+    body3::<0>();
+}
+
+#[kani::proof]
+#[kani::unwind(7)]
+fn c03_stage_replace_body3() {
+    body3::<2>();
 }
